@@ -1,11 +1,11 @@
 SPECIFICATION Spec
-CONSTANTS S1 = 4 S2 = 4 S3 = 0  MaxV = 1  Start = "Mask"  Strict = FALSE  Cross = FALSE  Close = FALSE
+CONSTANTS S1 = 4 S2 = 4 S3 = 0  MaxV = 1  Start = "Mask"  Strict = FALSE  Cross = FALSE  Close = FALSE  LabelBoundary = FALSE
 CHECK_DEADLOCK FALSE
 INVARIANT ErosionIsBoundary
 INVARIANT CoordsAreBoundary
 INVARIANT EachOnce
 INVARIANT SetsDoNotMixRegions
-INVARIANT SetsAreComponents
+INVARIANT OneSetPerRegion
 INVARIANT EveryRegionHasASet
 INVARIANT LabelOrder
 INVARIANT FastIsDef
